@@ -17,6 +17,7 @@
 #include <sys/stat.h>
 #include <sys/time.h>
 #include <sys/wait.h>
+#include <time.h>
 #include <unistd.h>
 
 #include <cstdarg>
@@ -297,6 +298,8 @@ inline std::string crash_signature(const std::string& err, int status, std::stri
             if (sp != std::string::npos) fn = fn.substr(sp + 1);
             frame = simplify_func(fn);
         }
+    } else if (WIFSIGNALED(status) && WTERMSIG(status) == SIGALRM) {
+        kind = "hang";  // watchdog: no progress within the per-case time limit
     } else if (WIFSIGNALED(status)) {
         kind = fmt("signal:%d", WTERMSIG(status));
     } else if (WIFEXITED(status)) {
@@ -395,7 +398,18 @@ inline void run_cases(uint64_t n, const std::function<void(uint64_t)>& fn) {
     bool capped = false;
     while (start < n) {
         bool ok = run_child([&] {
+            unsigned watchdog = (unsigned)a.opt_int("case_timeout", 120);
+            double armed = 0;
             for (uint64_t c = start; c < n; c += a.nshards) {
+                // watchdog re-armed at most once per second of progress: a single case that
+                // makes no progress for `watchdog` seconds ends the child as <op>/hang
+                timespec ts;
+                clock_gettime(CLOCK_MONOTONIC_COARSE, &ts);
+                double t = ts.tv_sec + ts.tv_nsec * 1e-9;
+                if (t - armed > 1.0) {
+                    alarm(watchdog);
+                    armed = t;
+                }
                 shm()->cur_case = c;
                 if ((c & 0xff) == 0 && past_deadline()) {
                     shm()->cur_case = UINT64_MAX;  // deadline marker
